@@ -19,7 +19,7 @@ Definition E_LOC : N := 5.   (* Rearranger.AddLocation: location must be exactly
 
 (* isIgnored: empty line or comment *)
 Definition is_ignored (l : bytes) : bool :=
-  match l with [] => true | 35 :: _ => true | _ => false end.
+  match l with [] => true | c :: _ => c =? 35 end.
 
 (* Accum.update with the ranger enabled: a subnet without location is an error *)
 Definition acc_update (r : record) : result (list record) :=
@@ -31,13 +31,11 @@ Definition acc_update (r : record) : result (list record) :=
 (* one step of Scan: what the line contributes to the output and to the accumulator *)
 Definition pre_line (o : toracles) (pserial : N) (l : bytes) : result (list bytes * list record) :=
   if is_ignored l then Ok ([], [])
-  else match l with
-  | 37 :: _ =>   (* % : decoded for the accumulator, not written (NoRnetOutput) *)
+  else if nth 0 l 0 =? 37 then   (* % : decoded for the accumulator, not written (NoRnetOutput) *)
     rbind (parse_line o pserial l) (fun r => rbind (acc_update r) (fun nets => Ok ([], nets)))
-  | 90 :: _ =>   (* Z : normalised *)
+  else if nth 0 l 0 =? 90 then   (* Z : normalised *)
     rbind (parse_line o pserial l) (fun r => Ok ([marshal o r], []))
-  | _ => Ok ([l], [])
-  end.
+  else Ok ([l], []).
 
 (* Read/Scan over the input lines.  A decode error ends the run with that error: Read hands out
    what is buffered and reports p.Err() on the next call, or at once when nothing is buffered
@@ -60,9 +58,9 @@ Definition preprocess (o : toracles) (rearrange : list record -> list record) (p
 (* ------------------------------------------------------------------ the compiler's view *)
 (* parser.go parse: bytes.TrimLeft(line, " "); lines shorter than 2 bytes and comments are skipped *)
 Fixpoint trim_spaces (l : bytes) : bytes :=
-  match l with 32 :: t => trim_spaces t | _ => l end.
+  match l with c :: t => if c =? 32 then trim_spaces t else l | [] => [] end.
 Definition compile_skips (l : bytes) : bool :=
-  (length l <? 2)%nat || match l with 35 :: _ => true | _ => false end.
+  (length l <? 2)%nat || (nth 0 l 0 =? 35).
 
 (* Rfeatures.MarshalMap *)
 Definition feature_kv (v2 : bool) : kv :=
